@@ -342,7 +342,11 @@ def component_case(v, comp, N, lazy):
     """Column / Index / MultiIndex schema objects called directly on a dataframe."""
     coerce = comp.endswith("_coerce")
     lo = v.int("lo")
-    if comp.startswith("multiindex"):
+    if comp == "multiindex_coerce_swapped":
+        # the schema lists the levels in another order than the data (ordered=False): coercion must put every level back in its place
+        df = v.mi_frame([("a", "float")], N, levels=[("k0", "l"), ("k1", "m")])
+        schema = pa.MultiIndex([pa.Index(int, name="k1"), pa.Index(int, Check.ge(lo), name="k0")], coerce=True, ordered=False)
+    elif comp.startswith("multiindex"):
         df = v.mi_frame([("a", "int" if coerce else "float")], N, levels=[("k0", "l"), ("k1", "m")])
         schema = pa.MultiIndex([pa.Index(float if coerce else int, Check.ge(lo), name="k0", coerce=coerce), pa.Index(int, name="k1")])
     else:
@@ -365,6 +369,9 @@ def component_case(v, comp, N, lazy):
     asserts = [("channel", v.holds(channel_ok(o))), ("input_unchanged", H.equal_to_snapshot(v, df, snap))]
     if o["kind"] == "accept":
         asserts.append(("kind_preserved", v.holds(is_frame(o["out"]))))
+        if comp in ("multiindex_coerce_swapped", "multiindex_coerce", "index_coerce", "column_coerce") and is_frame(o["out"]):
+            # coercion keeps rows, labels and values (numbers compared by value: int -> float is exact)
+            asserts.append(("coerce/labels_and_values_preserved", H.equal_to_snapshot(v, o["out"], snap, values_only=True)))
     return dict(obs=o, asserts=asserts, facts=dict(kind=o["kind"], reason=o.get("reason"), reasons=o.get("reasons")))
 
 
@@ -398,7 +405,8 @@ def standard_cases(tier):
                                 cc = dict(c, lazy=lazy, distinct_labels=drop)
                                 tid = "P/" + "".join(arr) + "/" + "/".join(f"{k}={v}" for k, v in cc.items() if k != "distinct_labels")
                                 ts.append((tid, parse_case, (arr, N, cc)))
-    for comp in ("column", "column_coerce", "column_default", "column_parser", "column_regex_parser", "index", "index_coerce", "multiindex", "multiindex_coerce"):
+    for comp in ("column", "column_coerce", "column_default", "column_parser", "column_regex_parser", "index", "index_coerce", "multiindex", "multiindex_coerce",
+                 "multiindex_coerce_swapped"):
         for lazy in (False, True):
             ts.append((f"K/{comp}/lazy={int(lazy)}/N={N}", component_case, (comp, N, lazy)))
     for shape in ("frame_index", "series_index", "frame_multiindex"):
@@ -1656,6 +1664,30 @@ def model_case(v, shape, N):
         models = [M]
         pspec = pa.DataFrameSchema({"a": pa.Column(float, Check(lambda s: s >= lo), nullable=nullable), "b": pa.Column(int)}, checks=Check(lambda d: d["b"] <= lo))
         extra_checks.append((Base, pspec))
+    elif shape == "reannotate":
+        # a subclass re-annotates an inherited field WITHOUT a Field(...): the parent's options do not carry over
+        class Base(pa.DataFrameModel):
+            a: float = pa.Field(ge=lo, nullable=nullable, unique=unique)
+            b: int = pa.Field(isin=[1, 2, 3])
+
+        class M(Base):
+            a: float
+        spec = lambda: pa.DataFrameSchema({"a": pa.Column(float), "b": pa.Column(int, Check.isin([1, 2, 3]))})  # noqa: E731
+        arr = [("a", "float"), ("b", "int")]
+        models = [M]
+        pspec = pa.DataFrameSchema({"a": pa.Column(float, Check.ge(lo), nullable=nullable, unique=unique), "b": pa.Column(int, Check.isin([1, 2, 3]))})
+        extra_checks.append((Base, pspec))
+    elif shape == "field_check_options":
+        # options of the checks created from Field keywords (ignore_na / raise_warning) reach the checks
+        ina, rw = v.bool("f_ina"), v.bool("f_rw")
+
+        class M(pa.DataFrameModel):
+            a: float = pa.Field(ge=lo, nullable=True, ignore_na=ina)
+            b: int = pa.Field(isin=[1, 2, 3], raise_warning=rw)
+        spec = lambda: pa.DataFrameSchema({"a": pa.Column(float, Check.ge(lo, ignore_na=ina), nullable=True),  # noqa: E731
+                                           "b": pa.Column(int, Check.isin([1, 2, 3], raise_warning=rw))})
+        arr = [("a", "float"), ("b", "int")]
+        models = [M]
     elif shape == "falsy_alias":
         # aliases that are falsy but not None: the integer label 0 and the empty string
         class M(pa.DataFrameModel):
@@ -1963,6 +1995,15 @@ def _mk_hschema(variant, lo):
     if variant == "plain":
         return pa.DataFrameSchema({"a1": pa.Column(float, Check.ge(lo), nullable=True, coerce=True), "b": pa.Column(int, Check.isin([1, 2, 3]), required=False)},
                                   unique=["a1", "b"], ordered=True, name="S")
+    if variant == "groupby":
+        def gfn(groups):
+            out = True
+            for k in sorted(groups):
+                out = out & (groups[k] >= lo).all()
+            return out
+        return pa.DataFrameSchema({"a1": pa.Column(float, Check(gfn, groupby="k", groups=["x", "y"]), nullable=False), "k": pa.Column(str)}, name="S")
+    if variant == "mi_dupnames":
+        return pa.MultiIndex([pa.Index(int, Check.ge(lo), name="id"), pa.Index(int, name="id")])
     raise KeyError(variant)
 
 
@@ -1971,14 +2012,19 @@ def _h_frame(v, variant, tag, N):
     return v.frame([(f"{c[0]}", *c[1:]) for c in kinds], N, labels=f"l{tag}_", distinct_labels=True) if False else _tagged_frame(v, kinds, N, tag)
 
 
-def _tagged_frame(v, kinds, N, tag):
+def _tagged_frame(v, kinds, N, tag, variant=None):
     """a fresh symbolic frame per history step: variable names carry the step tag"""
+    if variant == "mi_dupnames":  # a two-level MultiIndex whose levels carry the SAME name
+        return v.mi_frame([(c[0] + tag + "_", c[1]) for c in kinds], N, levels=[("id", f"L{tag}_"), ("id", f"M{tag}_")])
     lab = v.labels(f"L{tag}_", N, True)
     data = []
     for c in kinds:
         kind = c[1]
         nullable = (kind in ("float", "str")) if len(c) < 3 else c[2]
-        vals, nulls = v.cells(f"{c[0]}{tag}_", kind, N, nullable)
+        if len(c) > 3:
+            vals, nulls = [symframe.lift_cell(x, kind) for x in list(c[3])[:N]], [z3.BoolVal(False)] * N
+        else:
+            vals, nulls = v.cells(f"{c[0]}{tag}_", kind, N, nullable)
         data.append((c[0], kind, vals, nulls))
     if v.sym:
         idx = symframe.Index(lab)
@@ -2006,7 +2052,7 @@ def history_case(v, variant, k, N, ops=None, fixed=()):
         res = "ok"
         try:
             if op in ("validate_eager", "validate_lazy"):
-                d = _tagged_frame(v, _hkinds(variant), N, f"h{j}")
+                d = _tagged_frame(v, _hkinds(variant), N, f"h{j}", variant)
                 o = H.outcome(lambda: S.validate(d, lazy=(op == "validate_lazy")))
                 res = o["kind"]
             elif op == "coerce_dtype":
@@ -2050,7 +2096,7 @@ def history_case(v, variant, k, N, ops=None, fixed=()):
             res = "raised:" + type(exc).__name__
         trace[-1] = f"{op}:{res}"
         asserts.append((f"history/fingerprint_after_{j + 1}", v.holds(fingerprint(S) == fp0)))
-    probe = _tagged_frame(v, _hkinds(variant), N, "p")
+    probe = _tagged_frame(v, _hkinds(variant), N, "p", variant)
     o1 = H.outcome(lambda: S.validate(probe))
     o2 = H.outcome(lambda: ref.validate(probe))
     asserts.append(("history/verdict_as_fresh_schema", v.holds(o1["kind"] == o2["kind"] and o1.get("reason") == o2.get("reason"))))
@@ -2059,7 +2105,8 @@ def history_case(v, variant, k, N, ops=None, fixed=()):
 
 
 def _hkinds(variant):
-    return {"regex": [("a1", "float"), ("b", "int")], "dtype": [("a1", "float")], "plain": [("a1", "float"), ("b", "int")]}[variant]
+    return {"regex": [("a1", "float"), ("b", "int")], "dtype": [("a1", "float")], "plain": [("a1", "float"), ("b", "int")],
+            "groupby": [("a1", "float", False), ("k", "str", False, ["x", "y", "x", "y"])], "mi_dupnames": [("a1", "float")]}[variant]
 
 
 # ------------------------------------------------------------------ serialisation round trip (C12)
@@ -2335,14 +2382,20 @@ def infer_case(v, shape, kinds, N, serialise):
 
 
 # ------------------------------------------------------------------ coercion contract (C10, narrow claim)
-def _stub_dtype(v, u, target="float64"):
+STUB_EXC = {"ValueError": ValueError, "TypeError": TypeError, "OverflowError": OverflowError, "ArithmeticError": ArithmeticError, "KeyError": KeyError}
+
+
+def _stub_dtype(v, u, target="float64", engine="pandas", exc="ValueError"):
     """a pandas_engine DataType whose element conversion is a contract stub: element i cannot be converted iff u[i];
     coerce (the vectorised conversion) raises iff some present element cannot be converted.  Cell values ARE the slot
     numbers, so coerce_value(x) can consult u[x]."""
     import numpy as np
-    from pandera.engines import pandas_engine
+    from pandera.engines import numpy_engine, pandas_engine
 
-    class StubDT(pandas_engine.DataType):
+    EXC = STUB_EXC[exc]  # what the element conversion raises: any exception type means "cannot be converted"
+    base = pandas_engine.DataType if engine == "pandas" else numpy_engine.DataType
+
+    class StubDT(base):
         """derives from pandas_engine.DataType so that the REAL pandas_engine.DataType.try_coerce (which hands `self` to
         numpy_pandas_coerce_failure_cases) is the code under analysis"""
         type = np.dtype(target)
@@ -2353,11 +2406,11 @@ def _stub_dtype(v, u, target="float64"):
 
                 bad = zor(z3.And(p, v.z(u[_slot(x)])) for x, p in zip(data_container.vals, data_container.present))
                 if eng().branch(bad):
-                    raise ValueError("stub: cannot convert")
+                    raise EXC("stub: cannot convert")
                 return data_container._new(vals=[z3.RealVal(x.slot) if isinstance(x, EqCell) else (z3.ToReal(x) if z3.is_int(x) else x) for x in data_container.vals],
                                            dtype=np.dtype(target), kind="float")
             if any(bool(u[_slot(x)]) for x in data_container.tolist()):
-                raise ValueError("stub: cannot convert")
+                raise EXC("stub: cannot convert")
             if any(isinstance(x, EqCell) for x in data_container.tolist()):
                 import pandas as _pd
 
@@ -2368,7 +2421,7 @@ def _stub_dtype(v, u, target="float64"):
             i = _slot(value)
             flag = u[i]
             if bool(flag):
-                raise ValueError("stub: cannot convert element")
+                raise EXC("stub: cannot convert element")
             return value
 
     return StubDT(np.dtype(target))
@@ -2418,13 +2471,13 @@ def _slot(x):
 from symx import ModelGap as ModelGapT  # noqa: E402
 
 
-def coerce_stub_case(v, N, container, keys=None):
+def coerce_stub_case(v, N, container, keys=None, engine="pandas", exc="ValueError"):
     """the real try_coerce / numpy_pandas_coerce_failure_cases protocol over the stub pair.  keys: None = the elements are the
     slot numbers; a list = object elements, slots with the same key compare equal (and hash alike) but convert independently"""
     from pandera import errors as E
 
     u = [v.bool(f"u{i}") for i in range(N)]
-    dt = _stub_dtype(v, u)
+    dt = _stub_dtype(v, u, engine=engine, exc=exc)
     labels = [z3.Int(f"l{i}") for i in range(N)]
     if keys is None:
         obj = v.frame([("c", "int", False, list(range(N)))], N, labels="l", distinct_labels=True)
